@@ -203,6 +203,21 @@ func execDep(vec J, out *Writer) {
 		if _, ok := rec["parsed"]; !ok {
 			rec["parsed"] = J{"some": false}
 		}
+		// ... and through Arch.UnmarshalControl (how a typed control paragraph fills an Arch field): into fresh values
+		// and into values that already hold another architecture (a Decoder loop reuses its struct)
+		for _, route := range []string{"uc", "uc_dirty"} {
+			rec[route] = J{"some": false}
+			if xn, ok := vec["xn"]; ok {
+				var ux, uy dependency.Arch
+				if route == "uc_dirty" {
+					ux = dependency.Arch{ABI: "gnu", OS: "hurd", CPU: "zzz"}
+					uy = dependency.Arch{ABI: "musl", OS: "linux", CPU: "yyy"}
+				}
+				if ux.UnmarshalControl(S(xn)) == nil && uy.UnmarshalControl(S(vec["yn"])) == nil {
+					rec[route] = J{"some": true, "r_xy": ux.Is(&uy), "r_yx": uy.Is(&ux), "tx": tripleJ(ux), "ty": tripleJ(uy)}
+				}
+			}
+		}
 		out.Put(rec)
 	case "setmatch":
 		sj := M(vec["set"])
